@@ -157,7 +157,7 @@ func shallowClone(v reflect.Value) reflect.Value {
 	switch v.Kind() {
 	case reflect.Map:
 		if v.IsNil() {
-			return v
+			return reflect.Zero(v.Type()) // never v itself: it may be the (addressable) variable, i.e. an alias, not a copy
 		}
 		c := reflect.MakeMapWithSize(v.Type(), v.Len())
 		it := v.MapRange()
@@ -167,7 +167,7 @@ func shallowClone(v reflect.Value) reflect.Value {
 		return c
 	case reflect.Slice:
 		if v.IsNil() {
-			return v
+			return reflect.Zero(v.Type())
 		}
 		c := reflect.MakeSlice(v.Type(), v.Len(), v.Len())
 		reflect.Copy(c, v)
@@ -181,6 +181,23 @@ func SnapshotGlobals() {
 	for _, g := range globals {
 		g.saved = shallowClone(g.ptr.Elem())
 		// keep a private copy of non-reference kinds
+		if k := g.saved.Kind(); k != reflect.Map && k != reflect.Slice {
+			c := reflect.New(g.saved.Type()).Elem()
+			c.Set(g.saved)
+			g.saved = c
+		}
+		g.hasSave = true
+	}
+}
+
+// SnapshotNewGlobals snapshots the registered variables that have no snapshot yet (called from the generated
+// init() of each instrumented package: the state right after package initialisation).
+func SnapshotNewGlobals() {
+	for _, g := range globals {
+		if g.hasSave {
+			continue
+		}
+		g.saved = shallowClone(g.ptr.Elem())
 		if k := g.saved.Kind(); k != reflect.Map && k != reflect.Slice {
 			c := reflect.New(g.saved.Type()).Elem()
 			c.Set(g.saved)
